@@ -910,6 +910,29 @@ func TestC09(t *testing.T) {
 		}
 	}
 	if env.Shards <= 1 {
+		// exported methods beyond the ones the statements name (decoders, accessors), found by reflection
+		dc, found := discoverCases()
+		Enum(h, "discovered-api", len(dc), func(i int) DiscoverCase { return dc[i] }, nil, checkDiscover)
+		if !h.replaying() {
+			h.R.AddExact(int64(len(dc)), int64(len(dc)))
+			h.R.Extra("exported_methods_beyond_the_named_ones", fmt.Sprintf("%d found %v; %d decoder inputs / accessor calls checked", len(found), found, len(dc)))
+		}
+	}
+	if env.Shards <= 1 {
+		// objects that lie at the edge of accessible memory: every method must return (and return the same)
+		gc := guardObjCases()
+		if !doReplay(h, "guarded-object", checkGuardObj) {
+			for _, c := range gc {
+				h.R.Pending("guarded-object", c)
+				if err := safely(checkGuardObj, c); err != nil {
+					h.fail("guarded-object", c, err)
+				}
+			}
+			h.R.AddExact(int64(len(gc)), int64(len(gc)))
+			h.R.Count("objects placed flush with an inaccessible page, every method called", int64(len(gc)))
+		}
+	}
+	if env.Shards <= 1 {
 		so := sliceOffers()
 		Enum(h, "slice-offer", len(so), func(i int) SliceOffer { return so[i] }, nil, checkSliceOffer)
 		if !h.replaying() {
@@ -1053,6 +1076,35 @@ func rc(x float64) RatingCase {
 	return RatingCase{Bits: math.Float64bits(x), Text: fmt.Sprintf("%v", x)}
 }
 
+// RatingPair: two scores rated one after the other (the second answer must not depend on the first).
+type RatingPair struct {
+	A, B RatingCase
+}
+
+func checkRatingPair(c RatingPair) error {
+	if err := checkRating(c.A); err != nil {
+		return err
+	}
+	if err := checkRating(c.B); err != nil {
+		return fmt.Errorf("%v (rated right after %s)", err, c.A.Text)
+	}
+	return nil
+}
+
+// ulpsFrom returns th moved by k units in the last place.
+func ulpsFrom(th float64, k int) float64 {
+	x := th
+	for i := 0; i < k; i++ {
+		x = math.Nextafter(x, math.Inf(1))
+	}
+	for i := 0; i > k; i-- {
+		x = math.Nextafter(x, math.Inf(-1))
+	}
+	return x
+}
+
+const ulpWindow = 160
+
 var ratingThresholds = []float64{0, 0.1, 4.0, 7.0, 9.0, 10.0}
 
 func boundaryFloats() []float64 {
@@ -1096,6 +1148,26 @@ func TestC15(t *testing.T) {
 				w, ok := spec.Rating(x)
 				h.R.Sample("boundary", map[string]any{"x": fmt.Sprintf("%.17g", x), "expected": w, "in_range": ok})
 			}
+		}
+	}
+	if env.Shards <= 1 {
+		// every ordered pair of floats within 160 units in the last place of a threshold, rated back to back:
+		// a result remembered under a key that drops low mantissa bits answers for a neighbour on the other side
+		w := 2*ulpWindow + 1
+		per := w * w
+		win := make([][]float64, len(ratingThresholds))
+		for ti, th := range ratingThresholds {
+			for k := -ulpWindow; k <= ulpWindow; k++ {
+				win[ti] = append(win[ti], ulpsFrom(th, k))
+			}
+		}
+		Enum(h, "pair", per*len(ratingThresholds), func(i int) RatingPair {
+			ti, r := i/per, i%per
+			return RatingPair{A: rc(win[ti][r/w]), B: rc(win[ti][r%w])}
+		}, nil, checkRatingPair)
+		if !h.replaying() {
+			h.R.AddExact(int64(per*len(ratingThresholds)), int64(per*len(ratingThresholds)))
+			h.R.Count("exhaustive: ordered pairs of floats within 160 ulps of a threshold, rated back to back", int64(per*len(ratingThresholds)))
 		}
 	}
 	n := env.Scale(100000, 300000)
